@@ -3,7 +3,7 @@
 From Coq Require Import List NArith Bool Lia String.
 From Breadlog Require Import Model.Peg Model.Text Model.Regex Model.Glue Model.Tables.
 From Breadlog Require Import Gen.Grammar Gen.Consts.
-From Breadlog Require Import Proofs.PegFacts Proofs.RuleLemmas Proofs.GlueSpec Proofs.StatementLemmas.
+From Breadlog Require Import Proofs.PegFacts Proofs.RuleLemmas Proofs.GlueSpec Proofs.StatementLemmas Proofs.FileSpec.
 From Breadlog Require Import Properties.Common.
 Import ListNotations.
 Open Scope N_scope.
@@ -97,9 +97,83 @@ Example C10_first_statement_nonvacuous :
   directive_check the_params (p_ignore the_params) code (blen (ws0 ++ render_groups gs0)%list) (p_comment_re the_params) = Some false.
 Proof. vm_compute. repeat split; reflexivity. Qed.
 
-(* NOT proved: the same text-level statement for a statement that is not the first of its file, and
-   for statements with a target or key-values (for those, (3) takes over from the parse tree on);
-   that link is the correspondence + oracle campaign. *)
+(* (5) THE FINDER ON EVERY FILE OF A CANONICAL FILE LANGUAGE (Proofs/FileSpec.v), every configuration,
+   both styles.  A file is any sequence of items, each preceded by ANY layout (whitespace and comments
+   of both kinds with arbitrary text), then a final layout; an item is
+     IStmt : name !( layout "message"    -- name simple or module-qualified (c ("::")? (d ("::")?)* ),
+                                            message any plain characters and backslash escapes,
+     IName : a name that starts no bracketed macro call,
+     IChar : any other character (not whitespace, not a name start, not opening a comment).
+   items_ok is purely syntactic (no hypothesis mentions the parser).  The result is computed in closed
+   form by `expected`: one entry per statement whose name is configured and which is not under an
+   ignore directive --
+     message style (or under a no-kvp directive): at the byte offset / line / column of the first
+       character of the message value, with the reference the message text holds;
+     structured style: directly after the opening bracket, column one past the bracket, with the
+       `ref = ` prefix and the `; ` suffix of a statement without key-values;
+   and nothing for names, characters, comments or statements of other macros. *)
+Theorem C10_canonical_files : forall cfg its fin,
+  items_ok its fin ->
+  let code := render_items its fin in
+  find cfg code = Done (expected cfg code its []).
+Proof. exact find_canonical. Qed.
+
+Theorem C10_canonical_parse_tree : forall its fin,
+  items_ok its fin ->
+  let code := render_items its fin in
+  parse_file code = Ok (mkIn [] (blen code)) [Node "file" 0 (blen code) (nodes its 0 ++ [Node "EOI" (blen code) (blen code) []])].
+Proof. exact file_parse. Qed.
+
+(* non-vacuity: a small program with a header comment, a use line, vec![..], three statements (simple,
+   qualified with a comment inside the brackets and an escaped quote, unconfigured), and a trailing
+   commented-out statement without a final newline *)
+Definition ex_items : list (lay * item) :=
+  [(([], [(CLine [32;104;101;97;100;101;114], [10])]), IName (mkQ 117 false [(115, false);(101, false)]));
+   (([32], []), IName (mkQ 108 false [(111, false);(103, true);(105, false);(110, false);(102, false);(111, false)]));
+   (([], []), IChar 59);
+   (([10], []), IName (mkQ 102 false [(110, false)]));
+   (([32], []), IName (mkQ 109 false [(97, false);(105, false);(110, false)]));
+   (([], []), IChar 40);
+   (([], []), IChar 41);
+   (([32], []), IChar 123);
+   (([10;32;32;32;32], []), IName (mkQ 108 false [(101, false);(116, false)]));
+   (([32], []), IName (mkQ 118 false []));
+   (([32], []), IChar 61);
+   (([32], []), IName (mkQ 118 false [(101, false);(99, false)]));
+   (([], []), IChar 33);
+   (([], []), IChar 91);
+   (([], []), IChar 49);
+   (([], []), IChar 93);
+   (([], []), IChar 59);
+   (([10;32;32;32;32], []), IStmt (mkQ 105 false [(110, false);(102, false);(111, false)]) ([], []) [MChar 115;MChar 116;MChar 97;MChar 114;MChar 116]);
+   (([], []), IChar 41);
+   (([], []), IChar 59);
+   (([10;32;32;32;32], []), IStmt (mkQ 108 false [(111, false);(103, true);(119, false);(97, false);(114, false);(110, false)]) ([32], [(CBlock [32;99;32], [32])]) [MChar 97;MChar 32;MEsc 34;MChar 32;MChar 98;MChar 32;MChar 123;MChar 125]);
+   (([], []), IChar 44);
+   (([32], []), IName (mkQ 118 false []));
+   (([], []), IChar 41);
+   (([], []), IChar 59);
+   (([10;32;32;32;32], []), IStmt (mkQ 112 false [(114, false);(105, false);(110, false);(116, false);(108, false);(110, false)]) ([], []) [MChar 120]);
+   (([], []), IChar 41);
+   (([], []), IChar 59);
+   (([10], []), IChar 125)].
+Definition ex_fin : lay := ([10], [(CLine [32;105;110;102;111;33;40;34;110;111;116;32;99;111;100;101;34;41], [])]).
+
+Example C10_canonical_nonvacuous :
+  items_ok ex_items ex_fin /\
+  exists e1 e2,
+    expected (mkConfig false [([108;111;103], [105;110;102;111]); ([108;111;103], [119;97;114;110])])
+             (render_items ex_items ex_fin) ex_items [] = [e1; e2] /\
+    (e_pos e1, e_line e1, e_col e1) = (69, 5, 12) /\ (e_pos e2, e_line e2, e_col e2) = (103, 6, 26).
+Proof.
+  split.
+  - cbn. repeat split; try reflexivity; try exact I; try discriminate.
+  - eexists. eexists. vm_compute. repeat split; reflexivity.
+Qed.
+
+(* NOT proved: statements with a target argument or key-values as items of the file language (for
+   those, (3) takes over from the parse tree on), and bracketed macro calls whose arguments do not begin
+   with a string literal; that link is the correspondence + oracle campaign. *)
 
 (* non-vacuity: a statement with target, key-values, odd layout and a comment between arguments,
    preceded by "return": found, reference at the first character of the message *)
@@ -114,3 +188,5 @@ Print Assumptions C10_layout_is_skipped.
 Print Assumptions C10_configured_names.
 Print Assumptions C10_message_entry.
 Print Assumptions C10_first_statement_found.
+Print Assumptions C10_canonical_files.
+Print Assumptions C10_canonical_parse_tree.
